@@ -495,6 +495,111 @@ Definition glob_spec (bfn : list str) (pkg : str) (tree : node) (includes exclud
   filter (fun f => existsb (fun p => segs_match p f) includes && negb (existsb (fun e => excluded_by e f) excludes))
          (spec_files_in bfn (match pkg with [] => true | _ => false end) hidden syms [] tree).
 
+(* =========================================================================================== the Globber *)
+(* A Globber is persisted over several Glob calls (one per BUILD file scope: s.globber in src/parse/asp/builtins.go).
+   Its only mutable state is the walkedDirs map: rootPath -> what walkDir collected there.  The file system is
+   seen through globber.fs: `fsys root` is the directory tree at `root` (None: no such directory; WalkDir then
+   hands the callback a nil DirEntry, which it dereferences - a panic). *)
+Definition cache := list (str * walked).                 (* walkedDirs; most recently added first *)
+
+Fixpoint cache_get (root : str) (g : cache) : option walked :=
+  match g with
+  | [] => None
+  | (k, w) :: r => if str_eqb k root then Some w else cache_get root r
+  end.
+
+(* Globber.walkDir: look the root up; otherwise walk, and store the result only when the walk succeeded.
+   The key is rootPath - the only parameter of walkDir (Gen/GlobRegex.v walkdir_* regenerates this protocol). *)
+Definition walk_dir_st (bfn : list str) (fsys : str -> option node) (root : str) (g : cache) : option walked * cache :=
+  match cache_get root g with
+  | Some w => (Some w, g)
+  | None =>
+      match fsys root with
+      | None => (None, g)
+      | Some t => let w := walk_dir bfn root t in (Some w, (root, w) :: g)
+      end
+  end.
+
+(* Globber.glob: patternToMatcher comes first - a pattern that does not compile leaves the cache untouched *)
+Definition glob1_st (bfn : list str) (fsys : str -> option node) (root pattern : str) (excludes : list str)
+  (hidden syms : bool) (g : cache) : option (list str) * cache :=
+  match pattern_to_matcher root pattern with
+  | None => (None, g)
+  | Some p =>
+      match walk_dir_st bfn fsys root g with
+      | (None, g1) => (None, g1)
+      | (Some w, g1) =>
+          let names := w_files w ++ (if syms then w_syms w else []) in
+          (filter_matches root (w_subs w) excludes hidden (filter (tmatch p) names), g1)
+      end
+  end.
+
+(* Globber.Glob: a panic (None) abandons the call, the Globber keeps what it had cached until then *)
+Fixpoint glob_all_st (bfn : list str) (fsys : str -> option node) (root : str) (includes excludes : list str)
+  (hidden syms : bool) (g : cache) : option (list str) * cache :=
+  match includes with
+  | [] => (Some [], g)
+  | inc :: rest =>
+      match inc with
+      | [] => (None, g)
+      | _ =>
+          match glob1_st bfn fsys root inc excludes hidden syms g with
+          | (None, g1) => (None, g1)
+          | (Some ms, g1) =>
+              match glob_all_st bfn fsys root rest excludes hidden syms g1 with
+              | (None, g2) => (None, g2)
+              | (Some out, g2) => (Some (map (trim_prefix (root ++ [SLASH])) ms ++ out), g2)
+              end
+          end
+      end
+  end.
+
+Record call := Call { c_pkg : str; c_inc : list str; c_exc : list str; c_hidden : bool; c_syms : bool }.
+
+Definition root_of (pkg : str) : str := match pkg with [] => s "." | _ => pkg end.
+
+Definition glob_st (bfn : list str) (fsys : str -> option node) (g : cache) (c : call) : option (list str) * cache :=
+  glob_all_st bfn fsys (root_of (c_pkg c)) (c_inc c) (c_exc c) (c_hidden c) (c_syms c) g.
+
+(* a history of calls on one Globber: the result of every call, and the final state *)
+Fixpoint run_calls (bfn : list str) (fsys : str -> option node) (g : cache) (cs : list call)
+  : list (option (list str)) * cache :=
+  match cs with
+  | [] => ([], g)
+  | c :: rest =>
+      let (r, g1) := glob_st bfn fsys g c in
+      let (rs, g2) := run_calls bfn fsys g1 rest in
+      (r :: rs, g2)
+  end.
+
+(* the file system of one repository tree: a root path names the directory reached through its components *)
+Fixpoint tree_at (t : node) (segs : list str) : option node :=
+  match segs with
+  | [] => Some t
+  | x :: r =>
+      match t with
+      | Dir kids =>
+          (fix find (ks : list (str * node)) : option node :=
+             match ks with
+             | [] => None
+             | (nm, k) :: ks' => if str_eqb nm x then tree_at k r else find ks'
+             end) kids
+      | _ => None
+      end
+  end.
+
+Definition fs_of (tree : node) (root : str) : option node :=
+  if str_eqb root (s ".") then Some tree else tree_at tree (split_on SLASH root).
+
+Definition walked_eqb (a b : walked) : bool :=
+  list_eqb str_eqb (w_files a) (w_files b) && list_eqb str_eqb (w_syms a) (w_syms b)
+  && list_eqb str_eqb (w_subs a) (w_subs b).
+
+(* the observed walkedDirs map (any order, distinct keys) holds the same entries as the model's cache *)
+Definition cache_agrees (obs g : cache) : bool :=
+  Nat.eqb (length obs) (length g)
+  && forallb (fun kw => match cache_get (fst kw) g with Some w => walked_eqb w (snd kw) | None => false end) obs.
+
 (* ------------------------------------------------------------------------------------------- cases *)
 Inductive case :=
 | CGlob (bfn : list str) (pkg : str) (tree : node) (includes excludes : list str) (hidden syms : bool)
@@ -502,7 +607,10 @@ Inductive case :=
 | CGlobS (bfn : list str) (pkg : str) (tree : node) (includes excludes : list pat) (hidden syms : bool)
         (out : list str)                                  (* the same, patterns given structurally *)
 | CMatch (pattern path : str) (res : bool)                (* fs.Match(pattern, path) = patternToMatcher(".", p) *)
-| CRegex (pattern : str) (out : str).                     (* toRegexString, through the verif hook *)
+| CRegex (pattern : str) (out : str)                      (* toRegexString, through the verif hook *)
+| CSeq (bfn : list str) (tree : node) (calls : list call) (outs : list (option (list str))) (final : cache).
+        (* a history of Glob calls on ONE Globber over one repository tree: what each call returned (None: it
+           panicked) and the walkedDirs map afterwards (through the verif hook) *)
 
 Definition strs_eqb := list_eqb str_eqb.
 
@@ -518,4 +626,7 @@ Definition check (c : case) : bool :=
       | None => false
       end
   | CRegex pattern out => str_eqb (to_regex_string pattern) out
+  | CSeq bfn tree calls outs final =>
+      let (rs, g) := run_calls bfn (fs_of tree) [] calls in
+      list_eqb (option_eqb strs_eqb) rs outs && cache_agrees final g
   end.
